@@ -131,6 +131,19 @@ Section Res.
     Proof. constructor; [exact e2r_in|exact e2r_uniq|exact e2r_miss|exact e2r_once]. Qed.
   End RStep.
 
+  (* the reservation invariant reads the state only through these projections ([cancel] changes none of them) *)
+  Lemma e2_rinv_ext : forall s s', (forall t, gth s' t = gth s t) -> persisted s' = persisted s ->
+    inflight s' = inflight s -> tbl s' = tbl s -> RInv s -> RInv s'.
+  Proof.
+    intros s s' Hg Ep Ei Et R.
+    assert (Ea : all_entries s' = all_entries s) by (unfold all_entries; rewrite Ep, Ei; reflexivity).
+    constructor.
+    - intros t a k Ha. rewrite Hg in Ha. rewrite Et. exact (r_in s R _ _ _ Ha).
+    - intros t1 t2 a1 a2 k H1 H2. rewrite Hg in H1, H2. exact (r_uniq s R _ _ _ _ _ H1 H2).
+    - intros t a k Ha. rewrite Hg in Ha. rewrite Ea. exact (r_miss s R _ _ _ Ha).
+    - rewrite Ea. exact (r_once s R).
+  Qed.
+
   Lemma e2_rinv_persist : forall s s', RInv s -> persist_ok s = Some s' -> tbl s' = tbl s -> RInv s'.
   Proof.
     intros s s' R H Et. destruct (e2_persist_frame _ _ H) as (_ & Ea & _ & Eth & _).
